@@ -31,9 +31,9 @@ PROP = "C25"
 
 # n_expr: trees replayed per format; n_sig: signature/nesting cases (all in the python build, every 2nd / 3rd in the c / plain builds)
 QUICK = {"cfgs": [("Signature_quick", 600)],
-         "n_expr": {"python": 1200}, "n_sig": 120, "per_fn": 10, "per_mod": 200, "jobs": None}
+         "n_expr": {"python": 1000}, "n_sig": 80, "per_fn": 10, "per_mod": 200, "jobs": None}
 THOROUGH = {"cfgs": [("Signature_t2", 3000), ("Signature_t3", 3000)],
-            "n_expr": {"python": 12000, "c": 3000}, "n_sig": 900, "per_fn": 10, "per_mod": 200, "jobs": None}
+            "n_expr": {"python": 8000, "c": 2000}, "n_sig": 600, "per_fn": 10, "per_mod": 200, "jobs": None}
 
 SIG_DEFAULTS = ["100", "'s'", "None", "(1, 2)", "-1.5", "K"]
 HAZARD_TAGS = ["assoc", "chain", "cond", "inlist", "negpow", "primary", "tuple1"]
@@ -232,8 +232,9 @@ class BlockGen(L.Gen):
 def observe(modname, moddir, acc, ext, wd, timeout=900):
     """Run the observer child; restart after a crash.  -> {fid: record}"""
     os.makedirs(wd, exist_ok=True)
-    with open(os.path.join(moddir, "symh.py"), "w") as f:
-        f.write(L.SYMH)
+    if not os.path.exists(os.path.join(moddir, "symh.py")):
+        with open(os.path.join(moddir, "symh.py"), "w") as f:
+            f.write(L.SYMH)
     recs = {}
     todo = list(acc)
     crashes = 0
@@ -281,7 +282,7 @@ def check_embedded_default(case, text):
         return "embed-unparseable", {"text": text, "error": str(ex)[:100]}
     if c_ast is None:
         return "embed-unparseable", {"text": text}
-    if L.sem_equal(case["s_norm"], L.norm(c_ast)):
+    if L.sem_equal(case["s_norm"], L.norm(c_ast)) or (not case["has_opq"] and L.sem_equal(case["s_norm"], L.norm(c_ast, True))):
         return None
     return "embed-mismatch", {"text": text, "parses_as": ast.unparse(c_ast)}
 
@@ -376,7 +377,8 @@ def run(tier, seed):
         except Exception:
             n_raise += 1
             continue
-        c["s_norm"] = L.norm(s_ast)
+        c["s_norm"] = L.norm(s_ast, True)       # a literal `...` of the tree is a constant; not printable leaves are not
+        c["has_opq"] = '"opq"' in json.dumps(c["ast"])
         expr_ok.append(c)
 
     # ---- selection for replay: every hazard class and every clean class, sampled (seeded)
@@ -428,13 +430,17 @@ def run(tier, seed):
     for tag, dirs, flt in SIGCFG:
         sel = [c for c in sig_chosen if flt is None or flt(c)]
         for ci in range(0, len(sel), 250):
-            g = BlockGen()
+            # a small batch shares the module of the expression cases built with the same directives
+            host = next((x for x in expr_mods if x.directives == dirs and not hasattr(x, "meta")
+                         and len(x.gen.acc) + len(sel[ci:ci + 250]) <= 320), None)
+            g = host.gen if host else BlockGen()
             meta = {}
             for c in sel[ci:ci + 250]:
                 meta[c["cid"]] = render_sig_case(g, c["cid"], c)
-            m = Mod("c25s_%s%d" % (tag, ci // 250), g, dirs, ("sig", tag))
+            m = host or Mod("c25s_%s%d" % (tag, ci // 250), g, dirs, ("sig", tag))
             m.meta = meta
-            mods.append(m)
+            if not host:
+                mods.append(m)
             sig_mods.append(m)
 
     phase["prepare"] = round(time.time() - t0 - sum(phase.values()), 1)
@@ -445,11 +451,17 @@ def run(tier, seed):
     pydir = os.path.join(wd, "py")
     os.makedirs(pydir, exist_ok=True)
     p_recs = {}
+    with open(os.path.join(pydir, "symh.py"), "w") as f:
+        f.write(L.SYMH)
     for m in mods:
-        nm = m.name + "_py"
-        with open(os.path.join(pydir, nm + ".py"), "w") as f:
+        with open(os.path.join(pydir, m.name + "_py.py"), "w") as f:
             f.write(m.gen.py())
-        p_recs[m.name] = observe(nm, pydir, m.gen.acc, False, os.path.join(wd, "obs"))
+    import concurrent.futures
+    with concurrent.futures.ThreadPoolExecutor(max_workers=jobs) as ex:
+        pf = {m.name: ex.submit(observe, m.name + "_py", pydir, m.gen.acc, False, os.path.join(wd, "obs")) for m in mods}
+        cf = {m.name: ex.submit(observe, m.name, m.build.dir, m.gen.acc, True, os.path.join(wd, "obs")) for m in mods if m.build.ok}
+        p_recs = {k: f.result() for k, f in pf.items()}
+        c_recs = {k: f.result() for k, f in cf.items()}
 
     n_obs = 0
     n_eval = 0
@@ -464,7 +476,7 @@ def run(tier, seed):
             rep.disagree({"part": "build", "module": m.tag[0], "fmt": m.tag[1], "stage": b.stage}, "build-failed",
                          {"module": m.name, "errors": (b.errors or "")[-3000:]})
             continue
-        m.c_recs = observe(m.name, b.dir, m.gen.acc, True, os.path.join(wd, "obs"))
+        m.c_recs = c_recs[m.name]
 
     phase["observe"] = round(time.time() - t0 - sum(phase.values()), 1)
     # ---- expression cases
@@ -637,7 +649,7 @@ def run(tier, seed):
         sw = dict(probe["ast"])
         sw["c"] = list(reversed(sw["c"]))
         if sw["c"] != probe["ast"]["c"]:
-            bad["s_norm"] = L.norm(L.node2ast(sw))
+            bad["s_norm"] = L.norm(L.node2ast(sw), True)
             if check_embedded_default(bad, probe["src"]) is None:
                 core.die("binding self-test failed: swapped operands accepted")
     if cmp_sig_lists([["a", "pk", None]], [["a", "ko", None]]) is None or cmp_sig_lists([["a", "pk", ["int", "1"]]], [["a", "pk", ["int", "2"]]]) is None:
